@@ -975,7 +975,7 @@ fn run_managed(case: &Case) -> Outcome {
 /// open, every object returned and every deadline long past, the pool must offer exactly its
 /// capacity again. Used by the checks that borrow this interpreter for their "timed-out calls"
 /// clause, where a pure timing deviation is not theirs to judge.
-fn run_managed_free(case: &Case) -> Outcome {
+fn run_managed_free(case: &Case, prop: &str) -> Outcome {
     let world = Arc::new(World(Mutex::new(W {
         log: vec![],
         create: case.create.clone(),
@@ -1001,7 +1001,7 @@ fn run_managed_free(case: &Case) -> Outcome {
         return out;
     };
     let w2 = world.clone();
-    let r = catch_unwind(AssertUnwindSafe(|| rt.block_on(free_body(case, w2, &mut out))));
+    let r = catch_unwind(AssertUnwindSafe(|| rt.block_on(free_body(case, w2, &mut out, prop))));
     if let Err(p) = r {
         if out.violation.is_none() {
             out.violation = Some(("panic".into(), format!("a pool call panicked: {:?}", classify_panic(p))));
@@ -1011,7 +1011,7 @@ fn run_managed_free(case: &Case) -> Outcome {
     out
 }
 
-async fn free_body(case: &Case, world: Arc<World>, out: &mut Outcome) {
+async fn free_body(case: &Case, world: Arc<World>, out: &mut Outcome, prop: &str) {
     let max = case.max_size as usize;
     let pool = match managed::Pool::<Mgr>::builder(Mgr { world: world.clone() })
         .max_size(max)
@@ -1064,8 +1064,10 @@ async fn free_body(case: &Case, world: Arc<World>, out: &mut Outcome) {
                 let w = world.w();
                 (w.destroyed.clone(), w.detached.clone())
             };
+            // (an invariant that is not the business of the property at hand does not end the run:
+            // its consequences for that property may only show later)
             for (id, d) in wd.iter().enumerate() {
-                if *d && wdet[id] != 1 {
+                if *d && wdet[id] != 1 && relevant(prop, "destroyed-without-single-detach", out) {
                     out.violation = Some((
                         "destroyed-without-single-detach".into(),
                         format!("{}: object {} was destroyed by the live pool with {} detach calls", $at, id, wdet[id]),
@@ -1074,7 +1076,9 @@ async fn free_body(case: &Case, world: Arc<World>, out: &mut Outcome) {
                 }
             }
             let live = wd.iter().filter(|d| !**d).count();
-            if live > max {
+            if !relevant(prop, "too-many-live-objects", out) {
+                // not judged here
+            } else if live > max {
                 out.violation = Some(("too-many-live-objects".into(), format!("{}: {} objects are alive, max_size is {}", $at, live, max)));
                 return;
             }
@@ -2039,7 +2043,7 @@ impl Engine for Tsim {
         }
         // the model-free run: for the checks that borrow this interpreter, and for C10 itself
         if o.violation.is_none() && !case.realtime_zero && !case.unmanaged && case.runtime && matches!(ctx.prop.as_str(), "C01" | "C02" | "C03" | "C10") {
-            let f = run_managed_free(case);
+            let f = run_managed_free(case, &ctx.prop);
             if let Some((oracle, _)) = &f.violation {
                 if relevant(&ctx.prop, oracle, &f) {
                     let labels = std::mem::take(&mut o.labels);
